@@ -518,7 +518,10 @@ func (tr *TemplateRecord) minRecordLen() int {
 	return n
 }
 
-func (d *Decoder) getDataLength(fieldSpecifierLen uint16, t FieldType) (uint16, error) {
+// getDataLength returns the length of the next field: the length the template gives or,
+// for the variable-length marker 65535 (RFC 7011 section 7, for an element of any type),
+// the one- or three-octet length prefix in front of the value.
+func (d *Decoder) getDataLength(fieldSpecifierLen uint16) (uint16, error) {
 	var (
 		err        error
 		readLength uint16
@@ -526,7 +529,7 @@ func (d *Decoder) getDataLength(fieldSpecifierLen uint16, t FieldType) (uint16, 
 
 	r := d.reader
 
-	if (t == String || t == OctetArray) && (fieldSpecifierLen == 65535) {
+	if fieldSpecifierLen == 65535 {
 		var len8 uint8
 		if len8, err = r.Uint8(); err != nil {
 			return 0, err
@@ -565,7 +568,7 @@ func (d *Decoder) decodeData(tr TemplateRecord) ([]DecodedField, error) {
 				tr.ScopeFieldSpecifiers[i].ElementID)}
 		}
 
-		if readLength, err = d.getDataLength(tr.ScopeFieldSpecifiers[i].Length, m.Type); err != nil {
+		if readLength, err = d.getDataLength(tr.ScopeFieldSpecifiers[i].Length); err != nil {
 			return nil, err
 		}
 
@@ -591,7 +594,7 @@ func (d *Decoder) decodeData(tr TemplateRecord) ([]DecodedField, error) {
 				tr.FieldSpecifiers[i].ElementID)}
 		}
 
-		if readLength, err = d.getDataLength(tr.FieldSpecifiers[i].Length, m.Type); err != nil {
+		if readLength, err = d.getDataLength(tr.FieldSpecifiers[i].Length); err != nil {
 			return nil, err
 		}
 
